@@ -63,9 +63,11 @@ EmptyStore == [cache |-> [i \in SliceIdx |-> NoC],   \* commitment_cache
                done  |-> NoB,                        \* completed block
                bad   |-> FALSE]                      \* leader_misbehaved
 
-Res(s, ret, evs) == [s |-> s, ret |-> ret, evs |-> evs]
+Res(s, ret, evs) == [s |-> s, ret |-> ret, evs |-> evs, why |-> ""]
 \* Err(Equivocation | InvalidShred) -> flag_leader_misbehavior: InvalidBlock the first time
-Flag(s, ret) == Res([s EXCEPT !.bad = TRUE], ret, IF s.bad THEN <<>> ELSE <<"InvalidBlock">>)
+\* `why` names the rule that flags (documentation of the step; not observable)
+Flag(s, ret, why) == [s |-> [s EXCEPT !.bad = TRUE], ret |-> ret,
+                       evs |-> IF s.bad THEN <<>> ELSE <<"InvalidBlock">>, why |-> why]
 
 ---------------------------------------------------------------------------
 (* content rules *)
@@ -97,13 +99,13 @@ BlockOf(s) == LET p == Payloads(s) IN
 (* try_reconstruct_block *)
 TryBlock(s) ==
   IF s.done.ok \/ s.last = -1 \/ s.rec # 0..s.last THEN Res(s, "none", <<>>)
-  ELSE IF ~BlockWellFormed(Payloads(s)) THEN Flag(s, "invalid")
+  ELSE IF ~BlockWellFormed(Payloads(s)) THEN Flag(s, "invalid", "malformed_block")
   ELSE Res([s EXCEPT !.done = BlockOf(s)], "block", <<"Block">>)
 
 (* try_reconstruct_slice, then the block *)
 TrySlice(s, u) ==
   IF s.done.ok \/ u.idx \in s.rec \/ Cardinality(s.held[u.idx]) < DATA THEN Res(s, "none", <<>>)
-  ELSE IF SliceMalformed(u.idx, Root(u)) THEN Flag(s, "invalid")
+  ELSE IF SliceMalformed(u.idx, Root(u)) THEN Flag(s, "invalid", "malformed_slice")
   ELSE TryBlock([s EXCEPT !.rec = @ \cup {u.idx},
                           !.held[u.idx] = Shreds])      \* deshred restores the missing shreds in place
 
@@ -115,11 +117,11 @@ LaterKnown(s, i) == \E j \in SliceIdx : j > i /\ s.cache[j] # NoC
 (* add_shred_from_dissemination: one real shred r of the signed slice u *)
 One(s, u, r) ==
   IF s.bad THEN Res(s, "invalid", <<>>)                       \* refused, nothing announced again
-  ELSE IF s.cache[u.idx] # NoC /\ s.cache[u.idx] # Commit(u) THEN Flag(s, "equiv")
+  ELSE IF s.cache[u.idx] # NoC /\ s.cache[u.idx] # Commit(u) THEN Flag(s, "equiv", "conflict")
   ELSE
     LET s1 == [s EXCEPT !.cache[u.idx] = Commit(u)] IN
-    IF s1.last = -1 /\ u.last /\ LaterKnown(s1, u.idx) THEN Flag(s1, "equiv")
-    ELSE IF s1.last # -1 /\ ~Consistent(u, s1.last) THEN Flag(s1, "equiv")
+    IF s1.last = -1 /\ u.last /\ LaterKnown(s1, u.idx) THEN Flag(s1, "equiv", "late_marker")
+    ELSE IF s1.last # -1 /\ ~Consistent(u, s1.last) THEN Flag(s1, "equiv", "last_inconsistent")
     ELSE
       LET s2 == IF s1.last = -1 /\ u.last THEN [s1 EXCEPT !.last = u.idx] ELSE s1 IN
       IF r \in s2.held[u.idx] THEN Res(s2, "dup", <<>>)
@@ -132,7 +134,7 @@ One(s, u, r) ==
 (* slice (ValidatedShred::try_new) before it reaches the store.  A validly signed shred carrying ANOTHER *)
 (* commitment for that slice proves leader equivocation: the shred is dropped and the leader is flagged. *)
 NodeOne(s, u, r) ==
-  IF s.cache[u.idx] # NoC /\ s.cache[u.idx] # Commit(u) THEN Flag(s, "dropped")
+  IF s.cache[u.idx] # NoC /\ s.cache[u.idx] # Commit(u) THEN Flag(s, "dropped", "node_conflict")
   ELSE One(s, u, r)
 \* via = "node": through the node's validation; "direct": a fully verified shred handed to the store
 Ingest(s, u, r, via) == IF via = "node" THEN NodeOne(s, u, r) ELSE One(s, u, r)
@@ -140,12 +142,13 @@ Ingest(s, u, r, via) == IF via = "node" THEN NodeOne(s, u, r) ELSE One(s, u, r)
 (* the real shreds lo..hi of u, one call each, in ascending order *)
 RECURSIVE Fold(_, _, _, _, _, _)
 Fold(s, u, r, hi, via, acc) ==
-  IF r > hi THEN [s |-> s, rets |-> acc.rets, evs |-> acc.evs, blk |-> acc.blk]
+  IF r > hi THEN [s |-> s, rets |-> acc.rets, evs |-> acc.evs, blk |-> acc.blk, why |-> acc.why]
   ELSE LET o == Ingest(s, u, r, via) IN
        Fold(o.s, u, r + 1, hi, via,
             [rets |-> Append(acc.rets, o.ret), evs |-> acc.evs \o o.evs,
-             blk |-> IF o.ret = "block" THEN o.s.done ELSE acc.blk])
-Deliver(s, u, lo, hi, via) == Fold(s, u, lo, hi, via, [rets |-> <<>>, evs |-> <<>>, blk |-> NoB])
+             blk |-> IF o.ret = "block" THEN o.s.done ELSE acc.blk,
+             why |-> IF acc.why = "" THEN o.why ELSE acc.why])
+Deliver(s, u, lo, hi, via) == Fold(s, u, lo, hi, via, [rets |-> <<>>, evs |-> <<>>, blk |-> NoB, why |-> ""])
 
 (* add_own_slice: the leader stores its own slice (all shreds, decoded payload); the leader produces   *)
 (* each slice once, in order, and stops after the last one                                             *)
@@ -158,7 +161,7 @@ Own(s, u) ==
                       !.rec = @ \cup {u.idx}]
       b == TryBlock(s1)
   IN [s |-> b.s, rets |-> <<b.ret>>, evs |-> (IF first THEN <<"FirstShred">> ELSE <<>>) \o b.evs,
-      blk |-> IF b.ret = "block" THEN b.s.done ELSE NoB]
+      blk |-> IF b.ret = "block" THEN b.s.done ELSE NoB, why |-> b.why]
 
 ---------------------------------------------------------------------------
 (* getters (Blockstore trait), for the disseminated block *)
